@@ -1,17 +1,21 @@
 #!/bin/bash
-# usage: eval_ids.sh <seeded id>... : for each id apply seeded/<id>/patch.diff to /repo, run the quick check of its property from this tree, undo the patch.
-# Prints one line per id; meant to be started with `vp run` (works in the snapshot it is started from).
+# usage: eval_ids.sh <seeded id>... : for each id apply seeded/<id>/patch.diff to a SCRATCH COPY of the repository (a git worktree
+# outside /repo and /verif, removed at the end), run the quick check of its property from this tree against that copy
+# (VERIF_REPO), undo the patch. Prints one RESULT line per id. Meant to be started with `vp run` (works in its snapshot).
 here=$(cd "$(dirname "$0")/.." && pwd)
 cd $here
+copy=/tmp/verif_eval_repo_$$
+git -C /repo worktree add --detach $copy HEAD > /dev/null 2>&1 || { echo "cannot create the scratch worktree"; exit 2; }
+trap 'git -C /repo worktree remove --force '$copy' > /dev/null 2>&1' EXIT
+export VERIF_REPO=$copy
 [ -x coq/Extract/ml/model_driver ] || ./setup.sh > /dev/null 2>&1
 for id in "$@"; do
   prop=$(python3 -c "import json;print(json.load(open('$here/seeded/$id/meta.json'))['property'])")
-  (cd /repo && git apply $here/seeded/$id/patch.diff) || { echo "RESULT $id $prop patch-does-not-apply"; continue; }
+  (cd $copy && git apply $here/seeded/$id/patch.diff) || { echo "RESULT $id $prop patch-does-not-apply"; continue; }
   log=$(./check $prop --tier quick 2>&1 | grep -v "^KNOWN\|^INFO")
-  git -C /repo checkout -- .
+  git -C $copy checkout -- .
   rc=$(echo "$log" | tail -1 | sed 's/.*exit=//')
   nv=$(echo "$log" | grep -c '^VIOLATION')
   nf=$(echo "$log" | grep '^VIOLATION' | grep -vc 'no-failing-input-found')
   echo "RESULT $id $prop exit=$rc violation_lines=$nv with_failing_input=$nf :: $(echo "$log" | tail -1 | sed 's/ wall=.*//')"
-  cp -r replays/$prop replays_$id 2>/dev/null
 done
